@@ -853,7 +853,7 @@ def main(ck: Check) -> int:
     quick = ck.tier == 'quick'
     ck.c14_extracted = xmemo.extract()
     proof = ck.prove(MODULE, PROP_FILE)
-    ex = explore(ck, n=60 if quick else 1200, seed=ck.seed, n_table=24 if quick else 300, n_truth=60 if quick else 1500,
+    ex = explore(ck, n=60 if quick else 800, seed=ck.seed, n_table=24 if quick else 200, n_truth=60 if quick else 1000,
                  shrink_seconds=90 if quick else 400)
     xt = ck.c14_extracted
     ex.extra['extracted_from_source'] = {'decorators': xt['decorators'], 'memoisation_sites': len(xt['sites']), 'tables': dict(xt['tables']),
